@@ -49,7 +49,10 @@ class C11(Prop):
             "length longer or shorter than the fetched bytes, every subset of failing fetches (sampled), ascending and "
             "(for the recorded finding) non-ascending delivery order, the three fragmented scan modes; 1/6 of the cases have every rule decidable without its strings "
             "(`true or $a`, matched-only reporting: the no-scan pass is allowed in fast mode, the match lists must "
-            "still be the union since full matches are requested); per case 4-9 "
+            "still be the union since full matches are requested), 1/6 use the default reporting (no full "
+            "matches, matched only) with the reading probes (uintXX, ranges, also beyond the last region) placed "
+            "BEFORE the rule that needs strings — in fast mode they are evaluated before the regions are scanned; "
+            "per case 4-9 "
             "probe rules: `$a at X`, `$a in (lo..hi)`, `#a`, `@a[i]`, uint8/16/32(X) at region edges, `defined "
             "filesize`, hash.checksum32 over ranges inside one region, across adjacent regions, across a gap, past "
             "the last region. Compared with Scanner::scan_mem on each fetched region (rebased, concatenated) and with "
@@ -159,8 +162,22 @@ class C11(Prop):
             # answer the verdicts, the match lists must still be the rebased union (compute_full_matches)
             probes = [p for p in probes if p["t"] in ("filesize", "uint", "cs")]
             mode = rng.choice(["fast", "fast", "legacy", "single_pass"])
+        firstpass = (not noscan) and rng.chance(1, 5)
+        if firstpass:
+            # default reporting (no compute_full_matches, matched only): in fast mode the rules are first evaluated
+            # BEFORE the regions are scanned; reads (uintXX, ranges) placed before the rule that needs strings must
+            # not disturb the scan that follows
+            mode = rng.choice(["fast", "fast", "fast", "legacy", "single_pass"])
+            if not any(p["t"] in ("uint", "cs") for p in probes):
+                probes.append({"t": "uint", "n": rng.choice([1, 2, 4]), "x": addr_near()})
+            if rng.chance(1, 3):        # an address beyond the last region
+                last = max([r["start"] + len(r["hex"]) // 2 for r in regions] or [0])
+                probes.append({"t": "uint", "n": 1, "x": last + rng.choice([0, 1, 100])})
+            # the pass stops at the first rule that needs strings: the reads come first
+            probes = [p for p in probes if p["t"] in ("uint", "cs", "filesize")] + \
+                     [p for p in probes if p["t"] not in ("uint", "cs", "filesize")]
         return {"decl": d, "raw_decl": raw_decl, "regions": regions, "mode": mode, "probes": probes, "order": order,
-                "noscan_shape": noscan,
+                "noscan_shape": noscan, "firstpass_shape": firstpass,
                 "profile": rng.choice(["speed", "memory"]), "params": {}}
 
     def generate(self, ctx, rng, n):
@@ -177,11 +194,14 @@ class C11(Prop):
             ctx.count("string=%s" % ("text" if not c.get("raw_decl") else "hex/regex"))
             p = dict(c.get("params", {}))
             ns_shape = bool(c.get("noscan_shape"))
-            p.update({"compute_full_matches": True, "include_not_matched": not ns_shape, "mode": c["mode"]})
-            ctx.count("shape=%s" % ("decidable-without-strings" if ns_shape else "needs-strings"))
-            src = 'import "hash" import "console" rule r { strings: %s condition: %s } ' % (
-                decl, "true or $a" if ns_shape else "#a >= 0")
-            src += " ".join(probe_rule(i, pr, decl) for i, pr in enumerate(c["probes"]))
+            fp_shape = bool(c.get("firstpass_shape"))
+            p.update({"compute_full_matches": not fp_shape, "include_not_matched": not (ns_shape or fp_shape),
+                      "mode": c["mode"]})
+            ctx.count("shape=%s" % ("decidable-without-strings" if ns_shape else
+                                    "reads-before-strings" if fp_shape else "needs-strings"))
+            rule_r = "rule r { strings: %s condition: %s } " % (decl, "true or $a" if ns_shape else "#a >= 0")
+            probes_src = " ".join(probe_rule(i, pr, decl) for i, pr in enumerate(c["probes"]))
+            src = 'import "hash" import "console" ' + (probes_src + " " + rule_r if fp_shape else rule_r + probes_src)
             frag.append({"rules": [{"ns": None, "src": src}], "console": True, "profile": c.get("profile", "speed"),
                          "params": p, "input": {"regions": c["regions"]}})
             for ri, r in enumerate(c["regions"]):
